@@ -2,6 +2,7 @@ package hubnet
 
 import (
 	"fmt"
+	"strings"
 	"testing"
 	"time"
 
@@ -36,7 +37,12 @@ func genC01Hub(t *rapid.T) Scenario {
 	return sc
 }
 
-func TestC01Hub(t *testing.T) { runHubProperty(t, "C01", genC01Hub, judgeC10) }
+func judgeC01Hub(sc Scenario) (string, string, bool) {
+	k, m, nt := judgeC10(sc)
+	return strings.Replace(k, "C10/", "C01/hub-", 1), m, nt
+}
+
+func TestC01Hub(t *testing.T) { runHubProperty(t, "C01", genC01Hub, judgeC01Hub) }
 
 // ---- C09 at hub level: the stored SHIP ID reaches every new connection ---------------------------
 
